@@ -408,8 +408,21 @@ def canon(v, depth=0):
     return t + ":<object>"
 
 
-def _first(*args, **kwargs):
-    return args[0] if args else None
+class Fn:
+    """the callable f / g of generated programs: returns its first positional argument (or None); in native mode it
+    also logs its arguments; stable repr (no address) so that f-strings mentioning it are reproducible"""
+
+    def __init__(self, name, log=None):
+        self._name = name
+        self._log = log
+
+    def __call__(self, *args, **kwargs):
+        if self._log is not None:
+            self._log.append([self._name, canon(args) + canon(kwargs)])
+        return args[0] if args else None
+
+    def __repr__(self):
+        return f"<fn {self._name}>"
 
 
 def lit(src, log=None, name=None):
@@ -417,14 +430,7 @@ def lit(src, log=None, name=None):
     if src == "Plain()":
         return Plain()
     if src == "<callable>":
-        if log is None:
-            return _first
-
-        def fn(*args, **kwargs):
-            log.append([name, canon(args) + canon(kwargs)])
-            return _first(*args, **kwargs)
-
-        return fn
+        return Fn(name, log)
     return eval(src, {"__builtins__": {}}, {})  # pylint: disable=eval-used
 
 
@@ -473,7 +479,7 @@ async def one_tape(new_interp, case, which, seeded):
     table = {"t": tr}
     init_env = [["t", {"o": tr._id}]]
     for name, src in case.get("init", {}).items():
-        obj = Rec(run) if seeded else Rec(run, lit(src))
+        obj = Rec(run) if seeded else Rec(run, lit(src, None, name))
         table[name] = obj
         init_env.append([name, {"o": obj._id}])
     exc = None
